@@ -93,6 +93,11 @@ KINDS = {
     'keyerr':   ('GET', '/keyerr', [('/keyerr', ['exc', 'KeyError'])]),
     'nb':       ('GET', '/nb', [('/nb', ['http', 404]), (NULL, ['ret', 404])]),
     'item':     ('GET', '/item/7', [('/item/<n:int>', ['ret', 200])]),
+    # ONE route with two kinds of outcome: a status code and an uncaught exception
+    'flaky_ok':   ('GET', '/flaky/1', [('/flaky/<n:int>', ['ret', 200])]),
+    'flaky_boom': ('GET', '/flaky/0', [('/flaky/<n:int>', ['exc', 'ValueError'])]),
+    # the wall clock steps backwards while the request is served (NTP adjustment): still one request
+    'backclock': ('GET', '/backclock', [('/backclock', ['ret', 200])]),
     'unknown':  ('GET', '/nope', [(NULL, ['ret', 404])]),
     'wrongmeth': ('DELETE', '/postonly', [(NULL, ['ret', 405])]),
     'post':     ('POST', '/postonly', [('/postonly', ['ret', 200])]),
@@ -138,6 +143,17 @@ def stats_model_ops(case):
     return mops, marks
 
 
+_CLOCK = {'offset': 0.0}
+
+
+class _FakeTime(object):
+    """stands in for the time module inside clastic.middleware.stats: the real clock plus an offset the lab can move"""
+    @staticmethod
+    def time():
+        import time as _t
+        return _t.time() + _CLOCK['offset']
+
+
 def build_stats_app():
     from clastic import Application, Response, redirect, POST
     from clastic.errors import NotFound, Forbidden, ServiceUnavailable
@@ -174,10 +190,19 @@ def build_stats_app():
     def item(n):
         return Response(str(n))
 
+    def flaky(n):
+        if n == 0:
+            raise ValueError('flaky')
+        return Response('fine')
+
+    def backclock():
+        _CLOCK['offset'] -= 100.0
+        return Response('clock set back')
+
     mw = StatsMiddleware()
     routes = [('/ok', ok), ('/ctx', ctx, render_basic), ('/redir', redir), ('/raise404', raise404),
               ('/raise503', raise503), ('/ret403', ret403), ('/boom', boom), ('/keyerr', keyerr),
-              ('/nb', nb), ('/item/<n:int>', item), POST('/postonly', ok),
+              ('/nb', nb), ('/item/<n:int>', item), ('/flaky/<n:int>', flaky), ('/backclock', backclock), POST('/postonly', ok),
               ('/_stats', create_stats_app())]
     return Application(routes, middlewares=[mw]), mw
 
@@ -187,7 +212,7 @@ def snapshot(mw):
     for rt, hits in mw.route_hits.items():
         d = {}
         for key, res in hits.items():
-            d[key] = res.total_count
+            d[str(key)] = d.get(str(key), 0) + res.total_count        # (keys are reprs; whatever they are, report them as text)
         if d:
             out.setdefault(rt.pattern, {}).update(d)
     return sorted((p, sorted(d.items())) for p, d in out.items())
@@ -195,6 +220,9 @@ def snapshot(mw):
 
 def impl_stats(case):
     from harness import wsgi
+    import clastic.middleware.stats as _st
+    _CLOCK['offset'] = 0.0
+    _st.time = _FakeTime
     app, mw = build_stats_app()
     obs = []
     for k in case['ops']:
@@ -288,7 +316,13 @@ def run(rep, b, tier, seed, only_cases=None):
     n_res = 300 if tier == 'quick' else 4000
     n_st = 60 if tier == 'quick' else 600
     res_cases = [c for c in corpus if c.get('lab') == 'reservoir'] + [gen_reservoir_case(rng, tier) for _ in range(n_res)]
-    st_cases = [c for c in corpus if c.get('lab') == 'stats'] + [gen_stats_case(rng, tier) for _ in range(n_st)]
+    directed = [{'lab': 'stats', 'ops': ops} for ops in (
+        # one route with a status-code outcome AND an uncaught exception since the last reset, then the report and the reset
+        ['flaky_ok', 'flaky_boom', 'read', 'reset', 'flaky_boom', 'flaky_ok', 'read'],
+        ['flaky_boom', 'flaky_ok', 'flaky_ok', 'reset', 'read'],
+        ['backclock', 'read', 'ok', 'backclock', 'backclock', 'reset', 'backclock', 'read'],
+        ['ok', 'shrink', 'ok', 'ok', 'flaky_ok', 'shrink', 'flaky_boom', 'read'])]
+    st_cases = [c for c in corpus if c.get('lab') == 'stats'] + directed + [gen_stats_case(rng, tier) for _ in range(n_st)]
     if only_cases is not None:
         res_cases = [c for c in only_cases if c.get('lab') == 'reservoir']
         st_cases = [c for c in only_cases if c.get('lab') == 'stats']
